@@ -601,11 +601,13 @@ pub fn is_type_error(e: &Xerr) -> bool {
 pub fn limit_kinds() -> &'static (String, String, String) {
     static K: std::sync::OnceLock<(String, String, String)> = std::sync::OnceLock::new();
     K.get_or_init(|| {
+        // (a build in which a limit does not refuse at all yields a kind no error can match, so the
+        // checks report "limit not enforced" instead of stopping here)
         let kind = |f: &dyn Fn(&mut Xstate) -> Xresult| {
             let mut xs = boot();
             match f(&mut xs) {
                 Err(e) => err_kind(&e),
-                Ok(()) => machinery_error("calibration: a limit that must refuse did not"),
+                Ok(()) => "(this build did not refuse)".to_string(),
             }
         };
         let insn = kind(&|xs| {
@@ -617,7 +619,8 @@ pub fn limit_kinds() -> &'static (String, String, String) {
             xs.eval("1 2 3")
         });
         let heap = kind(&|xs| {
-            xs.set_heap_limit(Some(0))?;
+            let cells: usize = dump_get(&xs.verif_dump_light(), "heap_len").parse().unwrap_or(0);
+            xs.set_heap_limit(Some(cells))?;
             xs.eval("1 var calibration")
         });
         (insn, stack, heap)
